@@ -28,6 +28,8 @@ where
     pub fn get(&self, index: Source::Idx) -> Result<&Arc<Value>, Source::Error> {
         let cache_slot = &self.values[index.into()];
         if cache_slot.get().is_none() {
+            #[cfg(jubako_verif)]
+            crate::verif::point("cache.get", index.into() as u64, 0);
             let new_value = self.source.get_value(index)?;
             let _ = cache_slot.set(new_value);
         }
